@@ -112,9 +112,9 @@ def _arg_variants(case):
                 for other in new["program"]:
                     if other.get("src") == st["dst"] or other.get("tgt") == st["dst"]:
                         ix = other.get("ix")
-                        if ix and ix[0] == "mask" and len(ix[1]) == len(lens):
+                        if ix and ix[0] in ("mask", "blist") and len(ix[1]) == len(lens):
                             ix[1] = ix[1][:r] + ix[1][r + 1:]
-                        elif ix and ix[0] == "tup" and ix[1][0] == "mask" and len(ix[1][1]) == len(lens):
+                        elif ix and ix[0] == "tup" and ix[1][0] in ("mask", "blist") and len(ix[1][1]) == len(lens):
                             ix[1][1] = ix[1][1][:r] + ix[1][1][r + 1:]
                 yield new
             # shorten one row by its last element
